@@ -6,6 +6,7 @@ CONSTANTS
   MaxN = 3
   ScratchSize = "code"
   Finished = "first"
+  GrowLoop = "while"
   EarlyExit = TRUE
 INVARIANT CodesOk
 INVARIANT Refines
